@@ -84,7 +84,13 @@ class Dev(object):
         return None
 
     def _listen(self, name, target, timeout):
+        import nfc.clf
         self._rec(name, target.brty)
+        how = self.env.get('listen')
+        if how == 'unsupported':
+            raise nfc.clf.UnsupportedTargetError("no " + name)
+        if how == 'ioerror':
+            raise IOError(5, "host link broken")
         sched.vsleep(min(timeout, 0.01))
         return None
 
@@ -231,6 +237,98 @@ def sense_case(case):
     outcome = (res[0], res[1].brty if res[0] == 'ret' and res[1] else None,
                xres[0], xres[1] is None if xres[0] == 'ret' else None)
     return bad, outcome
+
+
+# -- part 'listen': a listen() that finds nobody or fails, after a successful
+# sense() or listen(); exchange() must not use the earlier target -------------
+LISTEN_KINDS = {
+    'A-none': ('106A', None), 'B-none': ('106B', None),
+    'F-none': ('212F', None), 'dep-none': ('dep', None),
+    'A-unsupported': ('106A', 'unsupported'),
+    'B-unsupported': ('106B', 'unsupported'),
+    'F-unsupported': ('212F', 'unsupported'),
+    'dep-unsupported': ('dep', 'unsupported'),
+    'A-ioerror': ('106A', 'ioerror'), 'F-ioerror': ('212F', 'ioerror'),
+    'C-badbrty': ('106C', None), 'X-badbrty': ('999Z', None),
+}
+
+
+def listen_case(case):
+    import nfc.clf
+    import nfc.clf.device
+    prelude, kind = case
+    brty, how = LISTEN_KINDS[kind]
+    log = []
+    dev = Dev(dict(found={'106A': 'found'}, tag=True), log)
+    real = nfc.clf.device.connect
+    nfc.clf.device.connect = lambda path: dev
+    bad = []
+    try:
+        clf = nfc.clf.ContactlessFrontend('script')
+        if prelude == 'sense':
+            if clf.sense(nfc.clf.RemoteTarget('106A')) is None:
+                raise sched.HarnessError("prelude sense failed")
+        else:
+            dev.env = dict(reader=True)
+            t = clf.listen(nfc.clf.LocalTarget(
+                '212F', sensf_res=bytearray.fromhex(SENSF_RES)), 0.1)
+            if t is None:
+                raise sched.HarnessError("prelude listen failed")
+        dev.env = dict(listen=how)
+        del log[:]
+        if brty == 'dep':
+            target = nfc.clf.LocalTarget(
+                '106A', sens_res=bytearray.fromhex("0101"),
+                sdd_res=bytearray.fromhex("08010203"),
+                sel_res=bytearray.fromhex("40"),
+                sensf_res=bytearray.fromhex(SENSF_RES),
+                atr_res=bytearray.fromhex(
+                    "D501" + "01FE0102030405060708" + "0000000832"))
+        elif brty.endswith('F'):
+            target = nfc.clf.LocalTarget(
+                brty, sensf_res=bytearray.fromhex(SENSF_RES))
+        else:
+            target = nfc.clf.LocalTarget(
+                brty, sens_res=bytearray.fromhex("0101"),
+                sdd_res=bytearray.fromhex("08010203"),
+                sel_res=bytearray.fromhex("00"))
+        try:
+            res = ('ret', clf.listen(target, 0.05))
+        except sched.HarnessError:
+            raise
+        except (nfc.clf.UnsupportedTargetError, ValueError, IOError) as e:
+            res = (type(e).__name__, e)
+        except Exception as e:
+            res = ('exc', e)
+        if res[0] == 'exc':
+            bad.append(('listen-raises|%s' % type(res[1]).__name__,
+                        dict(error=repr(res[1]))))
+        elif res[0] == 'ret' and res[1] is not None:
+            raise sched.HarnessError("listen found somebody: %r" % (res,))
+        del log[:]
+        try:
+            xres = ('ret', clf.exchange(b'\x30\x00', 0.1))
+        except sched.HarnessError:
+            raise
+        except Exception as e:
+            xres = ('exc', e)
+        used = [e for e in log if e[0] == 'dev']
+        if clf.target is not None:
+            bad.append(('stale-target-kept|after-listen:%s' % res[0],
+                        dict(target=str(clf.target))))
+        if xres[0] == 'exc':
+            bad.append(('exchange-raises|%s' % type(xres[1]).__name__,
+                        dict(error=repr(xres[1]))))
+        elif xres[1] is not None or used:
+            bad.append(('exchange-used-stale-target|after-listen:%s' % res[0],
+                        dict(result=repr(xres[1]), calls=used)))
+    finally:
+        nfc.clf.device.connect = real
+    return bad, ('listen', kind, res[0], xres[0])
+
+
+def listen_cases(tier):
+    return [(p, k) for p in ('sense', 'listen') for k in sorted(LISTEN_KINDS)]
 
 
 def sense_cases(tier):
@@ -416,6 +514,9 @@ def work(unit):
         if kind == 'sense':
             bad, outcome = sense_case(case)
             cls = 'sense|n=%d' % len(case[1])
+        elif kind == 'listen':
+            bad, outcome = listen_case(case)
+            cls = 'listen|%s' % case[0]
         else:
             bad, outcome = connect_case(case)
             cls = 'connect|%s|%s' % ('+'.join(case['opts']), case['env'])
@@ -442,6 +543,8 @@ def main(tier='quick', seed=0, part=None):
     if part in (None, 'sense'):
         units += [('sense', c) for c in par.chunks(
             par.shuffled(sense_cases(tier), seed), 64)]
+    if part in (None, 'listen'):
+        units += [('listen', listen_cases(tier))]
     if part in (None, 'connect'):
         units += [('connect', c) for c in par.chunks(
             par.shuffled(connect_cases(tier), seed), 128)]
@@ -451,7 +554,10 @@ def main(tier='quick', seed=0, part=None):
     run.rule = (
         "sense: every target list of length 1..3 over %d target kinds x "
         "iterations {1,2} x prelude {none, successful sense, successful "
-        "listen}, each followed by exchange(); connect: option subsets x "
+        "listen}, each followed by exchange(); listen: a listen() that finds "
+        "nobody, is not supported, has an invalid bit rate or fails on the "
+        "host link, after a successful sense()/listen(), followed by "
+        "exchange(); connect: option subsets x "
         "environment {none, tag, peer, reader} x callback return values with "
         "at most 2 non-default ones x terminate() turning true at its t-th "
         "call; each history judged by the reference automaton "
@@ -470,6 +576,7 @@ def replay(doc):
     import ast
     d = doc['detail']
     case = ast.literal_eval(d['case'])
-    bad, outcome = (sense_case if d['kind'] == 'sense' else connect_case)(case)
+    bad, outcome = {'sense': sense_case, 'listen': listen_case}.get(
+        d['kind'], connect_case)(case)
     print('replay:', [b[0] for b in bad], outcome)
     return 1 if bad else 0
